@@ -1,4 +1,4 @@
-\* MC_GoChannel_u_turnonly.cfg2
+\* unbuffered, sender-turn mutex WITHOUT the guard change: must still fail (the patch is minimal)
 SPECIFICATION Spec
 CONSTANTS
   Cap = 0
